@@ -12,16 +12,20 @@ Validity constraints covered (XML 1.0 5th ed.):
   `derivMatch`, proved equal to `Lang` in `deriv_iff` —, character data only in mixed/ANY, EMPTY has no
   content, every element declared) · Unique Element Type Declaration · No Duplicate Types (mixed) ·
   Attribute Value Type (declared) · ID (Name, unique) · One ID per Element Type · ID Attribute Default ·
-  IDREF/IDREFS (Names, each matches an ID) · Name Token(s) · Enumeration · No Duplicate Tokens ·
+  IDREF/IDREFS (Names, each matches an ID) · Entity Name (ENTITY/ENTITIES: Names of declared unparsed entities) · Name Token(s) · Enumeration · No Duplicate Tokens ·
   Required Attribute · Attribute Default Value Syntactically Correct · Fixed Attribute Default.
   Entity Declared (as VC, and as the WFC it becomes for standalone="yes" / no external subset) ·
   Standalone Document Declaration (§2.9): with standalone="yes" no EXTERNALLY declared attribute default
   (plain or #FIXED) may be needed, no externally declared entity referenced, no externally declared attribute
   of tokenized type (ID…NMTOKENS, not enumerations) may have a value that normalisation changes, and no externally declared element-content
   element may directly contain white space.
-Declarations carry an `ext` flag (declared in the external subset).  The internal subset is read before the
-external one, so internal declarations are binding over external ones (§2.8).
-Not modelled here: ENTITY/ENTITIES/NOTATION types, parameter entities, PE nesting VCs.
+Declarations carry an `ext` flag (located in the external subset, or in a parameter entity referenced there) and
+a `pe` flag (delivered by the replacement text of a parameter entity — internal or external — that is referenced
+in the INTERNAL subset).  For §2.9 both kinds are *external markup declarations* ("a markup declaration occurring in
+the external subset or in a parameter entity (external or internal …)"): `isExtDecl`.  The internal subset, with
+the parameter entities referenced in it, is read before the external one, so its declarations (in document order)
+are binding over those of the external subset (§2.8): binding order = `!ext` first.
+Not modelled here: NOTATION attribute types, PE nesting VCs (parameter entities always hold complete declarations).
 
 Definitions only; no Mathlib.
 -/
@@ -34,7 +38,7 @@ abbrev Tok := Nat
 def isNameTok (t : Tok) : Bool := t < 90
 
 inductive AttType where
-  | cdata | id | idref | idrefs | nmtoken | nmtokens
+  | cdata | id | idref | idrefs | nmtoken | nmtokens | entity | entities
   | enum (vals : List Tok)
   deriving Repr, DecidableEq, Inhabited
 
@@ -49,6 +53,7 @@ structure AttDef where
   type : AttType
   dflt : Dflt
   ext : Bool := false          -- declared in the external subset
+  pe : Bool := false           -- delivered by a parameter entity referenced in the internal subset
   deriving Repr, DecidableEq, Inhabited
 
 /-- `<!ELEMENT name content>` (in the subset given by `ext`) together with attribute definitions for
@@ -58,12 +63,14 @@ structure ElemDecl where
   content : Spec
   atts : List AttDef
   ext : Bool := false
+  pe : Bool := false
   deriving Repr, Inhabited
 
 /-- internal general entity `<!ENTITY name "t">` (non-empty character data) -/
 structure EntDecl where
   name : Nat
   ext : Bool := false
+  pe : Bool := false
   deriving Repr, DecidableEq, Inhabited
 
 /-- `padded`: the value is written with leading/trailing/doubled spaces, i.e. normalisation as a tokenized
@@ -91,6 +98,7 @@ structure Doc where
   root : Elem
   standalone : Bool := false     -- standalone="yes"
   hasExt : Bool := false         -- the DOCTYPE has an external subset
+  unparsed : List Tok := []      -- names (tokens) of the declared unparsed entities (`<!ENTITY v SYSTEM … NDATA n>`)
   ents : List EntDecl := []
   deriving Repr, Inhabited
 
@@ -118,6 +126,11 @@ def effAtts (decls : List ElemDecl) (n : Name) : List AttDef :=
   let all := (decls.filter (·.name == n)).flatMap (·.atts)
   dedupAtts (all.filter (!·.ext) ++ all.filter (·.ext)) []
 
+/-- external markup declaration in the sense of §2.9 -/
+def AttDef.isExtDecl (d : AttDef) : Bool := d.ext || d.pe
+def ElemDecl.isExtDecl (d : ElemDecl) : Bool := d.ext || d.pe
+def EntDecl.isExtDecl (d : EntDecl) : Bool := d.ext || d.pe
+
 /-- binding declaration of a general entity -/
 def findEnt (ents : List EntDecl) (n : Nat) : Option EntDecl :=
   match ents.find? (fun d => d.name == n && !d.ext) with
@@ -133,12 +146,12 @@ def nodup : List Nat → Bool
 def valueViolation (t : AttType) (v : List Tok) : Option String :=
   match t with
   | .cdata => none
-  | .id | .idref =>
+  | .id | .idref | .entity =>
     match v with
     | [] => some "empty-value"
     | [x] => if isNameTok x then none else some "not-a-name"
     | _ => some "multiple-tokens-for-single-valued-type"
-  | .idrefs => if v.isEmpty then some "empty-value" else if v.all isNameTok then none else some "not-a-name"
+  | .idrefs | .entities => if v.isEmpty then some "empty-value" else if v.all isNameTok then none else some "not-a-name"
   | .nmtoken =>
     match v with
     | [] => some "empty-value"
@@ -214,7 +227,7 @@ def isCdata : AttType → Bool
 /-- the *TokenizedType* production of §3.3.1 (enumerated types are a separate production; §2.9 names
     "attributes with tokenized types" only) -/
 def isTokenized : AttType → Bool
-  | .id | .idref | .idrefs | .nmtoken | .nmtokens => true
+  | .id | .idref | .idrefs | .nmtoken | .nmtokens | .entity | .entities => true
   | _ => false
 
 /-- violated constraints local to one element (not counting ID/IDREF cross references) -/
@@ -245,27 +258,32 @@ def elemLocalViolations (decls : List ElemDecl) (e : Elem) : List String :=
 def standaloneViolations (decls : List ElemDecl) (e : Elem) : List String :=
   let atts := effAtts decls e.name
   atts.flatMap (fun d =>
-    if d.ext && (dfltValue d.dflt).isSome && !e.attrs.any (·.name == d.name)
+    if d.isExtDecl && (dfltValue d.dflt).isSome && !e.attrs.any (·.name == d.name)
     then ["standalone:externally-declared-default-needed"] else []) ++
   e.attrs.flatMap (fun a =>
     match atts.find? (·.name == a.name) with
-    | some d => if d.ext && isTokenized d.type && a.padded then ["standalone:externally-declared-attribute-normalised"] else []
+    | some d => if d.isExtDecl && isTokenized d.type && a.padded then ["standalone:externally-declared-attribute-normalised"] else []
     | none => []) ++
   (match findDecl decls e.name with
-   | some d => if d.ext && isChildren d.content && e.x.ws
+   | some d => if d.isExtDecl && isChildren d.content && e.x.ws
                then ["standalone:white-space-in-externally-declared-element-content"] else []
    | none => [])
 
 /-- entity references of one element: `(wf, vc)` violation classes.  An undeclared entity is a
-    well-formedness error when the document is standalone or has no external subset (no parameter entities
-    are used), a validity error otherwise (§4.1); in a standalone document a reference to an entity whose
+    well-formedness error when the document is standalone or has neither an external subset nor parameter
+    entity references, a validity error otherwise (§4.1); in a standalone document a reference to an entity whose
     binding declaration is external is a well-formedness error (WFC Entity Declared). -/
+def usesPE (d : Doc) : Bool :=
+  d.decls.any (fun x => x.pe || x.atts.any (·.pe)) || d.ents.any (·.pe)
+
 def entityViolations (d : Doc) (e : Elem) : List String × List String :=
   e.x.refs.foldl (fun (acc : List String × List String) r =>
     match findEnt d.ents r with
-    | none => if d.standalone || !d.hasExt then (acc.1 ++ ["entity-declared"], acc.2)
+    | none => if d.standalone || (!d.hasExt && !usesPE d) then (acc.1 ++ ["entity-declared"], acc.2)
               else (acc.1, acc.2 ++ ["entity-declared"])
-    | some ed => if d.standalone && ed.ext then (acc.1 ++ ["entity-declared-externally-in-standalone-document"], acc.2)
+    | some ed => if d.standalone && ed.isExtDecl then
+                   (acc.1 ++ [if ed.ext then "entity-declared-externally-in-standalone-document"
+                              else "entity-declared-in-parameter-entity-in-standalone-document"], acc.2)
                  else acc) ([], [])
 
 mutual
@@ -290,6 +308,11 @@ def isRefType : AttType → Bool
   | .idrefs => true
   | _ => false
 
+def isEntityType : AttType → Bool
+  | .entity => true
+  | .entities => true
+  | _ => false
+
 /-- violated well-formedness constraints (only WFC Entity Declared can be violated by an abstract document) -/
 def wfViolations (d : Doc) : List String :=
   (allElems d.root).flatMap (fun e => (entityViolations d e).1)
@@ -298,13 +321,15 @@ def violations (d : Doc) : List String :=
   let es := allElems d.root
   let ids := tokensOfType d.decls es isIdType
   let refs := tokensOfType d.decls es isRefType
+  let entNames := tokensOfType d.decls es isEntityType
   dtdViolations d.decls ++
   (if d.root.name == d.doctype then [] else ["root-element-type"]) ++
   es.flatMap (elemLocalViolations d.decls) ++
   (if nodup ids then [] else ["id-unique"]) ++
   (if refs.all (fun r => ids.contains r) then [] else ["idref-resolves"]) ++
   es.flatMap (fun e => (entityViolations d e).2) ++
-  (if d.standalone then es.flatMap (standaloneViolations d.decls) else [])
+  (if d.standalone then es.flatMap (standaloneViolations d.decls) else []) ++
+  (if entNames.all (fun r => d.unparsed.contains r) then [] else ["entity-name"])
 
 /-- the document is well-formed and satisfies all modelled validity constraints -/
 def validDoc (d : Doc) : Bool := (wfViolations d).isEmpty && (violations d).isEmpty
